@@ -23,7 +23,8 @@ EXPLANATION = (
     " Also: (R6-R10) the pruning decision, the bound codec and the bounds' attachment (shared with C13) - every scan API prunes before it filters."
     " (R11) each operator handler has its SQL meaning on non-NULL rows: the handler expression is interpreted row-wise over a small ordered domain and compared with the operator's predicate."
     " (R12) the read path keeps no memo (C02.R6: instance, class and module-level state); (R13) one filter engine: FilterOp is interpreted only in the engine's module and every parsed filter feeds to_pyarrow_compute_expression."
-    " (R17) no Parquet read is given filters= (statistics pushdown drops NaN rows for !=) [D19, fixed]; (R18) is_in is reached only for value sets without float literals - float members compare with == terms [D20, fixed]. R11's row-wise interpreter handles loops, any / isinstance, list indexing and module-level helpers.")
+    " (R17) no Parquet read is given filters= (statistics pushdown drops NaN rows for !=) [D19, fixed]; (R18) is_in is reached only for value sets without float literals - float members compare with == terms [D20, fixed]. R11's row-wise interpreter handles loops, any / isinstance, list indexing and module-level helpers."
+    ' R4: the per-batch and per-file loops of _iter_file_batches run to exhaustion (no return / break out of them).')
 NOT_DECIDED = ("Arrow kernel semantics (NaN, numeric coercion, pushdown == manual filter); multiset equality across APIs and "
                "batch sizes at run time")
 ASSUMPTIONS = ["Arrow: comparison with a NULL operand yields NULL; is_in(NULL, set without NULL) is False; Kleene and/invert; "
